@@ -5,7 +5,7 @@
     source are regenerated into Gen/FsWalk_gen.v on every run and the premises [backend_keys_ok], [walk_ok] (and
     the chain parameters) are discharged for them by kernel-checked instance obligations in checks/c19.py. *)
 From Coq Require Import List NArith Bool Permutation.
-From SV Require Import SM.FsChain SM.FsChainProofs SM.FsChainRel SM.FsChainWitness SM.FsChainRaw.
+From SV Require Import SM.FsChain SM.FsChainProofs SM.FsChainRel SM.FsChainWitness SM.FsChainRaw SM.FsChainCompose.
 Import ListNotations.
 Open Scope N_scope.
 
@@ -267,3 +267,29 @@ Theorem c19_chain_walk_overwrite_refuted :
   /\ chain_get [m1; m2] [120] = Some ([120], [1])
   /\ chain_walk_mode DedupSkip RelDropSegs [OFold] [m1; m2] [] = [([120], ([120], [1]))].
 Proof. exact chain_walk_overwrite_refuted. Qed.
+
+(** ** Composition: the chain's walk and the chain's lookup tell the same story.
+    For a chain (any list of members, i.e. any ordering / priority insertion) whose members are sound backends
+    ([walk_ok], [backend_keys_ok]) over clean file sets with empty or clean prefixes, and an empty or clean folder:
+    every (path, File) listed by the de-duplicated walk is exactly what [chain[path]] returns - the listed name can be
+    looked up, and it yields the File of the first member that has the name. *)
+Theorem c19_chain_walk_lookup_closed : forall dops ms folder x,
+  dedup_ops_ok dops = true -> Forall sound_member ms -> okp folder ->
+  In x (chain_walk RelDropSegs dops ms folder) ->
+  chain_get ms (fst x) = Some (snd x).
+Proof. exact chain_walk_lookup_closed. Qed.
+Theorem c19_chain_walk_first_member : forall dops ms folder x,
+  dedup_ops_ok dops = true -> Forall sound_member ms -> okp folder ->
+  In x (chain_walk RelDropSegs dops ms folder) ->
+  exists pre m post, ms = pre ++ m :: post /\ asks (fst x) m = Some (snd x) /\ Forall (fun m' => asks (fst x) m' = None) pre.
+Proof. exact chain_walk_first_member. Qed.
+(** What a restricted member lists for a folder: the surviving files whose folded name is prefix "/" rest with the folder
+    a path prefix of rest (prefix and folder each empty or clean, either slash, any case). *)
+Theorem c19_walk_member : forall b fs p folder e,
+  walk_ok b = true -> clean_fs fs = true -> okp p -> okp folder ->
+  (In e (walk b fs (full_name p folder)) <->
+   In e (entries b fs) /\ exists R, under p (nkey (fst e)) R /\ path_prefix (nkey folder) R).
+Proof. exact walk_member. Qed.
+Example c19_compose_premises_satisfiable :
+  okp [] /\ okp [109; 97; 116] /\ okp [77; 92; 120] /\ dedup_ops_ok [OFold] = true.
+Proof. exact compose_premises_satisfiable. Qed.
